@@ -122,3 +122,14 @@ META["C10"] = M(
          "algorithm omitted/Auto/Eigh/Eig/Lanczos/Arnoldi (caps n, n+4, default 1000)/PowerIteration; every returned pair judged "
          "for residual, non-zero and independent (orthonormal if self-adjoint) vectors, count, and a tie-aware magnitude "
          "selection test against the reference spectrum; eigmax/eigmin likewise; distinct = kind+structure+k+which+alg+cap")
+
+META["C11"] = M(
+    shards={"quick": 16, "thorough": 64}, budget={"quick": 45, "thorough": 800},
+    floors={"quick": {"evals": 6000, "distinct": 500}, "thorough": {"evals": 150000, "distinct": 10000}},
+    required=["L-LH-equals-A", "P-L-U-equals-A", "lower-triangular", "upper-triangular", "P-is-permutation", "structure-kept"],
+    rule="well-conditioned positive-definite (cholesky) / non-singular (plu) operator trees over Dense, Identity, Diagonal (incl. "
+         "negative and complex entries for plu), ScalarMul, Kronecker with 2-3 factors of unequal size, BlockDiag with "
+         "multiplicities and nestings, real/complex, single/double; the densified factors are checked for their zero pattern "
+         "(lower / upper / permutation) and for reproducing the reference matrix; the returned operators' type tree is checked "
+         "against the input's (Kronecker -> Kronecker of factors, BlockDiag -> BlockDiag with the same multiplicities, "
+         "Diagonal/ScalarMul/Identity -> no Dense); distinct = function + canonical structure")
